@@ -231,6 +231,9 @@ func (hash *SexpHash) HashGet(env *Zlisp, key Sexp) (res Sexp, err error) {
 }
 
 func (hash *SexpHash) HashGetDefault(env *Zlisp, key Sexp, defaultval Sexp) (Sexp, error) {
+	if arr, isArray := key.(*SexpArray); isArray && len(arr.Val) == 1 {
+		key = arr.Val[0] // as in HashSet and HashGet: [k] means k
+	}
 	hashval, err := HashExpression(env, key)
 	if err != nil {
 		return SexpNull, err
@@ -405,6 +408,9 @@ func (hash *SexpHash) HashSet(key Sexp, val Sexp) error {
 }
 
 func (hash *SexpHash) HashDelete(key Sexp) error {
+	if arr, isArray := key.(*SexpArray); isArray && len(arr.Val) == 1 {
+		key = arr.Val[0] // same single-element convenience as HashSet/HashGet
+	}
 	hashval, err := HashExpression(nil, key)
 	if err != nil {
 		return err
@@ -416,11 +422,28 @@ func (hash *SexpHash) HashDelete(key Sexp) error {
 		return nil
 	}
 
-	hash.NumKeys--
 	for i, pair := range arr {
 		res, err := hash.Env.Compare(pair.Head, key)
 		if err == nil && res == 0 {
-			hash.Map[hashval] = append(arr[0:i], arr[i+1:]...)
+			// only a key that is actually present changes the
+			// count, and it must leave the insertion-order list too:
+			// otherwise (keys h), hpair, range, printing and the
+			// encodings keep showing it, a re-insert lists it twice,
+			// and deleting twice (or deleting a missing key that shares
+			// a bucket) makes NumKeys disagree with the buckets.
+			if len(arr) == 1 {
+				delete(hash.Map, hashval)
+			} else {
+				hash.Map[hashval] = append(arr[0:i:i], arr[i+1:]...)
+			}
+			hash.NumKeys--
+			for j, k := range hash.KeyOrder {
+				r, err := hash.Env.Compare(k, key)
+				if err == nil && r == 0 {
+					hash.KeyOrder = append(hash.KeyOrder[0:j:j], hash.KeyOrder[j+1:]...)
+					break
+				}
+			}
 			break
 		}
 	}
